@@ -271,11 +271,12 @@ class ResourcePeriodicallyUnavailable(ResourceConstraint):
                         conds.append(end_task_i <= self.start)
                     if self.end is not None:
                         conds.append(start_task_i >= self.end)
+                    # a busy interval moved to the past (worker not selected, optional
+                    # task not scheduled) is not a real one: folding it into the period
+                    # must not make it collide with an unavailability interval
+                    conds.append(end_task_i < 0)
 
-                    if len(conds) > 1:
-                        self.set_z3_assertions(z3.Or(*conds))
-                    else:
-                        self.set_z3_assertions(*conds)
+                    self.set_z3_assertions(z3.Or(*conds))
 
         if not resource_assigned:
             raise AssertionError(
@@ -543,11 +544,11 @@ class ResourcePeriodicallyInterrupted(ResourceConstraint):
                     mask.append(end_task_i <= self.start)
                 if self.end is not None:
                     mask.append(start_task_i >= self.end)
+                # a busy interval moved to the past (worker not selected, optional
+                # task not scheduled) is not a real one and is not interrupted
+                mask.append(end_task_i < 0)
 
-                if len(mask) > 1:
-                    self.set_z3_assertions(z3.Or(*mask))
-                else:
-                    self.set_z3_assertions(*mask)
+                self.set_z3_assertions(z3.Or(*mask))
 
         if not resource_assigned:
             raise AssertionError(
